@@ -435,6 +435,36 @@ func c19(c *Ctx) {
 			}
 		}
 	})
+	// a wrapper is built around what was given: reflect.MakeFunc(reflect.TypeOf(x), …) never sits on the side of a test
+	// where x is known to be nil (TypeOf(nil) is nil and MakeFunc panics — only when logging is on)
+	for _, cs := range callsTo(interceptor, "reflect.MakeFunc") {
+		mf := cs.(*ssa.Call)
+		bad := false
+		for _, a := range origins(mf.Call.Args[0]) {
+			tc, ok := a.V.(*ssa.Call)
+			if !ok || calleeName(tc.Common()) != "reflect.TypeOf" {
+				continue
+			}
+			x := resolveLocal(tc.Call.Args[0])
+			for _, g := range guardsAt(mf.Block()) {
+				bo, ok := g.Cond.(*ssa.BinOp)
+				if !ok || (bo.Op != token.EQL && bo.Op != token.NEQ) {
+					continue
+				}
+				var other ssa.Value
+				if isNilConst(bo.Y) {
+					other = bo.X
+				} else if isNilConst(bo.X) {
+					other = bo.Y
+				}
+				if other != nil && resolveLocal(other) == x && (bo.Op == token.EQL) == g.Pol {
+					bad = true
+				}
+			}
+		}
+		r.Check(!bad, "C19.R2", "wrapper built only around a non-nil callback at "+blockOrdinal(mf), p.Pos(posOf(mf)), "not on the nil side of a test of the callback",
+			"with logging on, the wrapper is built exactly when there is no callback (reflect.TypeOf(nil) → MakeFunc panics) and skipped when there is one: applying a mock panics only under debug, and callbacks are never logged")
+	}
 	r.Check(globalUse == "", "C19.R2", "interceptor keeps no package-level state", p.Pos(interceptor.Pos()), "no package-level variable is read or written", "the interception point uses package-level state ("+globalUse+"): what a mock does under logging depends on earlier calls")
 	for _, cl := range interceptor.AnonFuncs {
 		cons := "wrapper " + shortName(cl)
